@@ -605,7 +605,10 @@ def run(rec, cfg):
     # term grid
     grid = [(c, v, e) for c in ["", "-", "1", "2", "4", "12", "0", "-1", "-3", "0.5", "2.5", "-0.25", "100", "007",
                                 # coefficients next to 1 and -1 (precision boundaries: 1/49*49, 1 + 1e-10, one ulp above 1)
-                                "0.9999999999999999", "1.0000000001", "1.0000000000000002", "0.9999999999", "-1.0000000001", "-0.9999999999999999", "0.0000000001", "1.00001"] for v in ["", "x", "y", "Q"] for e in ["", "2", "3", "0", "1", "-2", "0.5", "2.5", "-1", "10"]]
+                                "0.9999999999999999", "1.0000000001", "1.0000000000000002", "0.9999999999", "-1.0000000001", "-0.9999999999999999", "0.0000000001", "1.00001",
+                                # integer coefficients no double holds exactly (2^53+1, 2^63-1, 2^64+1, 10^20+1, 30 digits)
+                                "9007199254740993", "-9007199254740993", "9223372036854775807", "18446744073709551617", "100000000000000000001",
+                                "123456789012345678901234567891"] for v in ["", "x", "y", "Q"] for e in ["", "2", "3", "0", "1", "-2", "0.5", "2.5", "-1", "10"]]
     for i, (c, v, e) in enumerate(grid):
         if cfg.mine(i) and not (v == "" and e != "") and not (c in ("", "-") and v == ""):
             check_term_ex(rec, rng, c, v, e)
